@@ -95,6 +95,7 @@ struct World {
     mapped: bool,
     var_kinds: Vec<char>,
     inversion_tags: Vec<String>,
+    worker_tl: Vec<(u32, Option<u64>)>,
 }
 
 fn round_scaled(x: f64) -> i64 {
@@ -117,6 +118,7 @@ impl World {
             mapped: false,
             var_kinds: Vec::new(),
             inversion_tags: Vec::new(),
+            worker_tl: Vec::new(),
         }
     }
 
@@ -244,6 +246,7 @@ impl World {
                 ));
                 Self::apply_setup(&mut self.s, self.n_res, op);
                 self.workers.push(*id);
+                self.worker_tl.push((*id, *tl));
                 self.setup.push(op.clone());
             }
             Op::AddRqV { variants } => {
@@ -369,8 +372,10 @@ impl World {
                             continue;
                         }
                         for w in &ws {
-                            let capable =
-                                self.s.request_entries(h.rq).iter().all(|(r, a)| w.resources[*r as usize] >= *a);
+                            let tl = self.worker_tl.iter().find(|x| x.0 == w.id).and_then(|x| x.1);
+                            let min_time = self.s.request_variants(h.rq)[0].1;
+                            let capable = self.s.request_entries(h.rq).iter().all(|(r, a)| w.resources[*r as usize] >= *a)
+                                && tl.map(|t| min_time <= t).unwrap_or(true);
                             if capable {
                                 let g = self.s.gap(h.rq, l.rq, w.id);
                                 self.e(format!("GAP {} {} {} {}", h.rq, l.rq, w.id, g));
@@ -434,7 +439,12 @@ impl World {
                 for l in lines {
                     self.e(l);
                 }
-                self.e(format!("FEASIBLE {}", feasible as u8));
+                // no solution at all (HiGHS hit its time limit without an incumbent, e.g. on a starved machine)
+                if solved {
+                    self.e(format!("FEASIBLE {}", feasible as u8));
+                } else {
+                    self.e("FEASIBLE -".to_string());
+                }
                 self.e(format!(
                     "COUNTS {}",
                     join(sol.sn_counts.iter().map(|(rq, _v, w, c)| format!("{rq}:{w}:{c}")), ",")
@@ -514,8 +524,39 @@ fn finish(w: World, out: &mut String) {
 
 /// One random instance within the domain of C15: 1-3 workers (heterogeneous cpus / gpus / mem, idle or
 /// partly busy), 1-3 single-variant single-node request classes, up to 8 priority levels.
+/// wide mode, pruning scenario: two small request classes on big workers, many interleaved priority
+/// levels with one task each, so that a batch collects more than BATCH_PRUNING_MAX_SIZE cuts and
+/// `prune_progressive` runs.
+fn gen_pruning_trace(id: u64, rng: &mut Rng, out: &mut String) {
+    let mut w = World::new(1);
+    header(&mut w.out, id, 1, "wide");
+    for i in 0..3u32 {
+        w.exec(&Op::AddW { id: i + 1, units: vec![rng.range(14, 16) as u32] });
+    }
+    w.exec(&Op::AddRq { entries: vec![(0, FR / 2)] });
+    w.exec(&Op::AddRq { entries: vec![(0, FR * 3 / 4)] });
+    let n_levels = rng.range(68, 90);
+    let mut next_task = 1u64;
+    for lvl in 0..n_levels {
+        // alternate the classes level by level so that every level opens a cut
+        let rq = (lvl % 2) as u32;
+        let t = (1u64 << 32) | next_task;
+        next_task += 1;
+        w.exec(&Op::AddT { task: t, rq: if rng.chance(1, 10) { 1 - rq } else { rq }, prio: 1000 - lvl as i32 });
+    }
+    w.exec(&Op::State);
+    w.exec(&Op::Decide);
+    w.exec(&Op::Solution);
+    w.exec(&Op::Mapping);
+    finish(w, out);
+}
+
 fn gen_trace(id: u64, rng: &mut Rng, tier: &str, mode: &str, out: &mut String) {
     let wide = mode == "wide";
+    if wide && rng.chance(1, 5) {
+        gen_pruning_trace(id, rng, out);
+        return;
+    }
     // candidate exact class of C15: one worker, one resource kind (cpus), two request classes
     let exact = mode == "exact";
     let n_res = if exact { 1 } else { match rng.below(10) {
@@ -525,6 +566,9 @@ fn gen_trace(id: u64, rng: &mut Rng, tier: &str, mode: &str, out: &mut String) {
     } };
     let mut w = World::new(n_res);
     header(&mut w.out, id, n_res, mode);
+    // wide mode: half of the instances use worker time limits, request min_times and blocked classes
+    // (single variant), so that the creation filters of placement / reservation variables are exercised
+    let timed = wide && rng.chance(1, 2);
     let n_workers = if exact { 1 } else { rng.range(1, 3) as u32 };
     let big = tier == "thorough" && rng.chance(1, 4);
     let max_cpus = if big { 16 } else { 8 };
@@ -536,7 +580,12 @@ fn gen_trace(id: u64, rng: &mut Rng, tier: &str, mode: &str, out: &mut String) {
         }
         // worker ids not in creation order sometimes (the solver sorts by id)
         let id = if rng.chance(1, 5) { 10 - i } else { i + 1 };
-        w.exec(&Op::AddW { id, units: units.clone() });
+        if timed {
+            let tl = if rng.chance(2, 3) { Some(*rng.pick(&[50u64, 100, 200])) } else { None };
+            w.exec(&Op::AddWT { id, tl, units: units.clone() });
+        } else {
+            w.exec(&Op::AddW { id, units: units.clone() });
+        }
         wunits.push(units);
     }
     let n_classes = if exact { 2 } else { rng.range(1, 3) as u32 };
@@ -554,7 +603,11 @@ fn gen_trace(id: u64, rng: &mut Rng, tier: &str, mode: &str, out: &mut String) {
         if classes.contains(&es) {
             continue;
         }
-        w.exec(&Op::AddRq { entries: es.clone() });
+        if timed {
+            w.exec(&Op::AddRqV { variants: vec![(es.clone(), *rng.pick(&[0u64, 10, 75, 150]))] });
+        } else {
+            w.exec(&Op::AddRq { entries: es.clone() });
+        }
         classes.push(es);
     }
     let n_classes = classes.len() as u32;
@@ -603,6 +656,10 @@ fn gen_trace(id: u64, rng: &mut Rng, tier: &str, mode: &str, out: &mut String) {
                 w.exec(&Op::Busy { task: t, worker, started: rng.chance(2, 3) });
             }
         }
+    }
+    if timed && rng.chance(1, 2) {
+        let worker = w.workers[rng.below(w.workers.len() as u64) as usize];
+        w.exec(&Op::Block { worker, rq: rng.below(n_classes as u64) as u32, variant: 0 });
     }
     w.exec(&Op::Prio { vals: levels.iter().copied().take(8).collect() });
     w.exec(&Op::State);
